@@ -76,8 +76,85 @@ def job_fraction_types(job):
     return out
 
 
+def job_sequences(job):
+    """operation sequences on ONE OutdoorCrops object: every sequence (length <= depth) of greenhouse-share schedules handed to
+    set_crop_production_minus_greenhouse_area one after the other.  After every call the output must equal what a fresh object gives
+    for that schedule alone (the call is a function of the amount grown and the schedule, not of earlier calls), the amount grown kept
+    on the object (KCALS_GROWN, NO_RELOCATION_KCALS_GROWN) must be what it was before the first call, the caller's schedule must be
+    unmodified, and the zero schedule never gives less than a non-zero one."""
+    reloc, ratio, h, depth = job
+    import copy
+    import itertools
+    np = supplies._S["np"]
+    c0, t0 = c08.base_constants()
+    c = copy.deepcopy(c0)
+    c.update(NMONTHS=h, OG_USE_BETTER_ROTATION=reloc, RATIO_INCREASED_CROP_AREA=ratio, NUMBER_YEARS_TAKES_TO_REACH_INCREASED_AREA=3, STARTING_MONTH_NUM=5)
+    out = {"v": [], "n": 0, "states": 0}
+    ramp = np.minimum(0.2, np.maximum(0.0, (np.arange(h) - 7) * 0.01))
+    menu = {"zero": np.zeros(h), "ramp to 0.2": ramp, "flat 0.1": np.full(h, 0.1)}
+
+    def fresh():
+        with common.quiet():
+            oc = supplies._S["OutdoorCrops"](c)
+            oc.calculate_rotation_ratios(c)
+            oc.calculate_monthly_production(c)
+        return oc
+    try:
+        alone = {}
+        for name, frac in menu.items():
+            oc = fresh()
+            with common.quiet():
+                oc.set_crop_production_minus_greenhouse_area(c, copy.deepcopy(frac))
+            alone[name] = np.asarray(oc.production.kcals, dtype=float).copy()
+        for seq in itertools.chain.from_iterable(itertools.product(menu, repeat=d) for d in range(1, depth + 1)):
+            oc = fresh()
+            grown0 = np.asarray(oc.KCALS_GROWN, dtype=float).copy()
+            noreloc0 = np.asarray(getattr(oc, "NO_RELOCATION_KCALS_GROWN", []), dtype=float).copy()
+            key = {"direct": "call sequence reloc=%s area ratio=%s h=%d" % (reloc, ratio, h), "sequence": list(seq)}
+            rp = {"kind": "sequences", "reloc": reloc, "ratio": ratio, "NMONTHS": h, "depth": depth}
+            out["n"] += 1
+            for k, name in enumerate(seq):
+                arg = copy.deepcopy(menu[name])
+                with common.quiet():
+                    oc.set_crop_production_minus_greenhouse_area(c, arg)
+                got = np.asarray(oc.production.kcals, dtype=float)
+                out["states"] += h
+                if not np.allclose(got, alone[name], rtol=1e-9, atol=0):
+                    m = int(np.argmax(np.abs(got - alone[name])))
+                    out["v"].append(violation("output_independent_of_earlier_calls", key, "call %d (%s) on the same object: month %d output %r, a fresh object gives %r" % (k + 1, name, m, float(got[m]), float(alone[name][m])), rp))
+                    break
+                if not np.array_equal(np.asarray(arg, dtype=float), np.asarray(menu[name], dtype=float)):
+                    out["v"].append(violation("schedule_unmodified", key, "call %d modified the caller's greenhouse share schedule (%s)" % (k + 1, name), rp))
+                    break
+                g = np.asarray(oc.KCALS_GROWN, dtype=float)
+                nr = np.asarray(getattr(oc, "NO_RELOCATION_KCALS_GROWN", []), dtype=float)
+                if g.shape != grown0.shape or not np.array_equal(g, grown0) or nr.shape != noreloc0.shape or not np.array_equal(nr, noreloc0):
+                    which = "KCALS_GROWN" if (g.shape != grown0.shape or not np.array_equal(g, grown0)) else "NO_RELOCATION_KCALS_GROWN"
+                    out["v"].append(violation("amount_grown_unmodified", key, "call %d (%s) changed the amount grown kept on the object (%s)" % (k + 1, name, which), rp))
+                    break
+                if np.any(got > alone["zero"] * (1 + 1e-9) + 1e-12):
+                    out["v"].append(violation("greenhouses_never_add_outdoor_output", key, "call %d (%s): output above the zero-greenhouse output" % (k + 1, name), rp))
+                    break
+    except Exception as e:
+        import traceback
+        return {"error": "sequences %r: %r %s" % (job, e, traceback.format_exc()[-300:])}
+    return out
+
+
 def run(tier, seed):
     cov, vs, errors = c08.explore("C09", tier, seed)
+    sjobs = [(reloc, ratio, h, 2 if tier == "quick" else 3) for reloc in (False, True) for ratio in (1, 1.5, 3.0) for h in ((48,) if tier == "quick" else (48, 84, 120))]
+    sres = common.pmap(job_sequences, sjobs, init_fn=supplies.init, chunksize=1)
+    errors = errors + [r["error"] for r in sres if "error" in r]
+    for r in sres:
+        if "v" in r:
+            vs.extend(r["v"])
+            cov["executions"] += r["n"]
+            cov["states"] += r["states"]
+            cov["transitions"] += r["states"]
+            cov["traces_validated_against_impl"] += r["n"]
+    cov["call_sequences"] = {"jobs": len(sjobs), "schedules": ["zero", "ramp to 0.2", "flat 0.1"], "depth": 2 if tier == "quick" else 3,
+                             "configurations": "relocation on/off x cropland ratio 1 / 1.5 / 3 x horizon", "sequences": sum(r.get("n", 0) for r in sres)}
     tjobs = [(reloc, b, h) for reloc in (False, True) for b in (0.37e6 * 1e-6, 0.37e6, 5e8) for h in ((48,) if tier == "quick" else (48, 84, 120))]
     tres = common.pmap(job_fraction_types, tjobs, init_fn=supplies.init, chunksize=1)
     errors = errors + [r["error"] for r in tres if "error" in r]
@@ -115,6 +192,8 @@ def replay(rp):
     supplies.init()
     if rp.get("kind") == "fraction_types":
         return job_fraction_types((rp["reloc"], rp["baseline"], rp["NMONTHS"])).get("v", [])
+    if rp.get("kind") == "sequences":
+        return job_sequences((rp["reloc"], rp["ratio"], rp["NMONTHS"], rp["depth"])).get("v", [])
     if rp.get("kind") == "pair":
         return job_pair((rp["iso3"], rp["NMONTHS"], rp["crop_disruption"]))["v"]
     return c08.replay(rp, "C09")
